@@ -5,7 +5,7 @@ import NmVerif.Index.SelCommon
   Stable names:
     `Index.shapeRepeatNone shape r`, `Index.shapeRepeat shape r axis`, `Index.shapeRepeatList shape rs axis`
                                                    index::shape_repeat (axis None / scalar repeats / per-element repeats)
-    `Index.indexRepeatNone shape r d`, `Index.indexRepeat r axis d`, `Index.indexRepeatList rs axis d`
+    `Index.indexRepeatNone shape r d`, `Index.indexRepeat shape r axis d`, `Index.indexRepeatList shape rs axis d`
                                                    index::repeat
     `Index.repeatView src r axis : Option IxView`       view::repeat(a, r, axis)   (`axis : Option Int`, `none` = None)
     `Index.repeatListView src rs axis : Option IxView`  view::repeat(a, {r₀,…}, axis)
@@ -13,8 +13,8 @@ import NmVerif.Index.SelCommon
   Facts mirrored (repeat.hpp:40-100, 199-260):
     * `shape_repeat` addresses `ret[axis]` through `nmtools::at` (Python-style wrap for a negative run-time axis),
       so the *shape* is right for a negative axis …
-    * … but `index::repeat` compares `(common_t) i == (common_t) axis` with an unsigned common type: a negative
-      axis never matches and the destination index is passed through unchanged (→ reads outside the source).
+    * `index::repeat` first normalises the axis (`a < 0 ? a + len(shape) : a`, repaired: "repeat.negative-axis") and
+      then compares `i == axis` per coordinate.
     * per-element repeats: `ret[axis] = sum(repeats)` (the length check is an assert, compiled out);
       source position = first `k` with `d[axis] < cumsum(repeats)[k]`.
     * axis None: `[prod·r]`, `compute_indices(d[0] / r, shape)`; per-element repeats with axis None do not instantiate.
@@ -48,23 +48,25 @@ def indexRepeatNone (shape : Shape) (r : Nat) (d : Idx) : Idx :=
   | i :: _ => computeIndices (i / r) shape (strides shape)
   | [] => []
 
-/-- loop `for i < len(d)`: `ret[i] = (i == axis) ? d[i] / r : d[i]` with the comparison done in `size_t` -/
-def indexRepeat (r : Nat) (axis : Int) (d : Idx) : Idx := mapAt (· / r) axis 0 d
+/-- loop `for i < len(d)`: `ret[i] = (i == axis) ? d[i] / r : d[i]`, `axis` normalised against `len(shape)` -/
+def indexRepeat (shape : Shape) (r : Nat) (axis : Int) (d : Idx) : Idx :=
+  mapAt (· / r) (normAxis axis shape.length) 0 d
 
 /-- `at(where(idx < ·, cumsum(repeats)), 0)`: first position whose cumulative count exceeds `x`
     (`= length` when there is none: the C++ then reads element 0 of an empty container) -/
 def firstAbove (rs : List Nat) (x : Nat) : Nat := (cumsum rs).findIdx (fun c => decide (x < c))
 
-def indexRepeatList (rs : List Nat) (axis : Int) (d : Idx) : Idx := mapAt (firstAbove rs) axis 0 d
+def indexRepeatList (shape : Shape) (rs : List Nat) (axis : Int) (d : Idx) : Idx :=
+  mapAt (firstAbove rs) (normAxis axis shape.length) 0 d
 
 /-- `view::repeat(a, r, axis)`, scalar repeats -/
 def repeatView (src : Shape) (r : Nat) (axis : Option Int) : Option IxView :=
   match axis with
   | none => some ⟨src, shapeRepeatNone src r, fun d => some (indexRepeatNone src r d)⟩
-  | some ax => (shapeRepeat src r ax).map (fun dst => ⟨src, dst, fun d => some (indexRepeat r ax d)⟩)
+  | some ax => (shapeRepeat src r ax).map (fun dst => ⟨src, dst, fun d => some (indexRepeat src r ax d)⟩)
 
 /-- `view::repeat(a, repeats, axis)`, one count per entry of the axis -/
 def repeatListView (src : Shape) (rs : List Nat) (axis : Int) : Option IxView :=
-  (shapeRepeatList src rs axis).map (fun dst => ⟨src, dst, fun d => some (indexRepeatList rs axis d)⟩)
+  (shapeRepeatList src rs axis).map (fun dst => ⟨src, dst, fun d => some (indexRepeatList src rs axis d)⟩)
 
 end NmVerif.Index
